@@ -110,6 +110,11 @@ def escapes(items):
 
 class Exec:
     def __init__(self, real, report):
+        # "<realisation>-shared": the SAME condition object is used for every region with the same kind
+        # of condition (a condition computed once and tested in several places)
+        self.share = real.endswith("-shared")
+        self.cond_cache = {}
+        real = real[:-7] if self.share else real
         self.real = real
         self.report = report
         self.model = []          # values of the active secret conditions
@@ -125,6 +130,13 @@ class Exec:
         return e
 
     def make_cond(self, c):
+        if self.share and c in ("b1", "b0", "s1", "s0"):
+            if c not in self.cond_cache:
+                self.cond_cache[c] = self._make_cond(c)
+            return self.cond_cache[c]
+        return self._make_cond(c)
+
+    def _make_cond(self, c):
         rt, B = H.rt, H.boolean
         return {"b1": lambda: B.PrivValBool(1), "b0": lambda: B.PrivValBool(0),
                 "s1": lambda: rt.PrivVal(1), "s0": lambda: rt.PrivVal(0),
@@ -314,6 +326,7 @@ def run_tree(tree, real, p):
         viols.append(({"klass": klass, "real": real, "where": where.split(" ")[0]}, text))
 
     ex = Exec(real, report)
+    real = ex.real
     if real in BLOCK_REALS:
         ex.ctx = H.branching.BranchingValues()
     try:
@@ -366,6 +379,41 @@ def applicable(tree, real):
     return True
 
 
+def region_forests(k, depth, conds):
+    """All forests of exactly k region nodes (no other events), nesting <= depth."""
+    memo = {}
+
+    def forests(n, d):
+        if n == 0:
+            return [()]
+        if d == 0:
+            return []
+        key = (n, d)
+        if key in memo:
+            return memo[key]
+        out = []
+        for inner in range(0, n):              # first tree has 1 + inner nodes
+            for sub in forests(inner, d - 1):
+                for rest in forests(n - 1 - inner, d):
+                    for c in conds:
+                        out.append((("region", c, sub),) + rest)
+        memo[key] = out
+        return out
+    return forests(k, depth)
+
+
+def region_conds(items, out=None):
+    out = [] if out is None else out
+    for it in items:
+        if it[0] == "region":
+            if it[1] in ("b1", "b0", "s1", "s0"):
+                out.append(it[1])
+            region_conds(it[2], out)
+        elif it[0] == "try":
+            region_conds(it[1], out)
+    return out
+
+
 def _task(t):
     chunk, p = t
     st = {"histories": 0, "executions": 0, "transitions": 0, "skipped_open_block": 0}
@@ -373,8 +421,10 @@ def _task(t):
     viols = {}
     for tree in chunk:
         st["histories"] += 1
-        for real in REALS + ["else"]:
-            if not applicable(tree, real):
+        kinds = region_conds(tree)
+        repeated = len(kinds) != len(set(kinds))
+        for real in REALS + ["else"] + (["guarded-shared", "if-shared", "ite-then-shared"] if repeated else []):
+            if not applicable(tree, real[:-7] if real.endswith("-shared") else real):
                 continue
             vs, ev, sts, skipped = run_tree(tree, real, p)
             if skipped:
@@ -384,6 +434,7 @@ def _task(t):
             st["transitions"] += ev
             states |= sts
             for sig, text in vs:
+                sig = dict(sig, real=real)
                 k = common.sig_hash(sig)
                 if k not in viols:
                     viols[k] = {"sig": sig, "count": 0, "what": "history [%s] realised with %s: %s" % (tree_str(tree), real, text),
@@ -400,6 +451,9 @@ def run(ctx):
     budget, depth = (8, 3) if ctx.thorough else (7, 3)
     conds = CONDS
     all_trees = trees(budget, depth, conds)
+    # deeper region-only histories (4 regions; thorough 5) for the shared-condition realisations
+    extra = [t for k in ((4, 5) if ctx.thorough else (4,)) for t in region_forests(k, 3, ["b1", "b0", "s1", "s0"])]
+    all_trees += [t for t in extra if len(region_conds(t)) != len(set(region_conds(t)))]
     # the seed only permutes the order
     random.Random(ctx.seed).shuffle(all_trees)
     nchunks = common.NCPU * 8
@@ -422,7 +476,7 @@ def run(ctx):
     ctx.cov["exhaustive"] = True
     ctx.cov["rule"] = ("history = well-nested tree of regions (cost 2 each; 8 kinds of condition incl. refused ones), "
                        "API ops, user exceptions, value errors and try/except blocks (cost 1 each), total cost <= bound, "
-                       "nesting <= 3; every history x 8 realisations (guarded, lazy then/else branch, _if, _else, _elif, _while, _range); after every event the real (guard, ignore_errors, "
+                       "nesting <= 3; every history x 8 realisations (guarded, lazy then/else branch, _if, _else, _elif, _while, _range), plus three realisations in which equal conditions are ONE shared object; after every event the real (guard, ignore_errors, "
                        "LinComb.ONE, constants) is compared with the reference stack model (product of the enclosing "
                        "secret conditions); states = distinct (condition stack, guard-present, ignore flag, ONE-is-safe) "
                        "configurations reached; transitions = events executed")
